@@ -938,7 +938,7 @@ pub fn metamorphic(p: &Program, t: &mut Tape) -> Result<usize, String> {
 
 pub fn run_c10(tier: &str, seed: u64) -> campaign::CampaignResult {
     let start = Instant::now();
-    let np = std::env::var("EQV_NPROG").ok().and_then(|v| v.parse().ok()).unwrap_or(if tier == "thorough" { 30000 } else { 400 });
+    let np = std::env::var("EQV_NPROG").ok().and_then(|v| v.parse().ok()).unwrap_or(if tier == "thorough" { 8000 } else { 400 });
     let known = KnownFindings::load();
     let mut ev = Evidence::new("C10", tier, seed, "exploration");
     let profiles: Vec<String> = vec!["with_enums".into(), "free".into(), "stratified".into(), "surjective".into()];
